@@ -317,6 +317,92 @@ func c18TypeBFS(c *Ctx, shape string) *mc.BFS {
 	}
 }
 
+// c18FirstWrapper: a struct type that has never been wrapped in this process (a
+// fresh run-time type per execution); the type maps of the FIRST wrapper are
+// mutated, then ANOTHER resource of the type is wrapped and copied: the copy must
+// have the fields of its source (a per-type cache seeded with the first
+// wrapper's own maps would hand the mutated ones to everybody).
+var c18Fresh int
+
+func c18FirstWrapper(x *mc.Exec) {
+	mut := x.Choose(4, "mutation of the first wrapper")
+	derive := x.Choose(3, "derivation")
+	c18Fresh++
+	d := TypeD{Name: fmt.Sprintf("fresh%d_%d_%d", c18Fresh, mut, derive), Attrs: []AttrD{{"title", kStr}, {"views", kInt}}, Rels: []RelD{{"tags", false, "u", ""}}}
+	first := d.NewRes(false)
+	switch mut {
+	case 1:
+		delete(first.Attrs(), "title")
+	case 2:
+		delete(first.Rels(), "tags")
+	case 3:
+		t := first.GetType()
+		_ = t.AddAttr(j.Attr{Name: "extra", Type: j.AttrTypeBool})
+	}
+	src := d.NewRes(false)
+	src.Set("id", "s1")
+	src.Set("title", "T")
+	src.Set("tags", []string{"x"})
+	var der j.Resource
+	names := []string{"Copy()", "New()", "Wrap again"}
+	if p := Try(func() {
+		switch derive {
+		case 0:
+			der = src.(j.Copier).Copy()
+		case 1:
+			der = src.(j.Copier).New()
+		case 2:
+			der = d.NewRes(false)
+		}
+	}); p != "" {
+		x.Fail("C18:first-wrapper:panic", "%s panicked after the first wrapper's type maps were edited: %s", names[derive], p)
+		return
+	}
+	x.R.Add("transitions", 1)
+	x.R.Mark("nontrivial", mc.Hash(mut, derive))
+	want := []string{"tags", "title", "views"}
+	if got := FieldNames(src.GetType()); fmt.Sprint(got) != fmt.Sprint(want) {
+		x.Fail("C18:first-wrapper:source-fields", "a second resource of the type has fields %v after another wrapper's type was edited (mutation %d)", got, mut)
+	}
+	if got := FieldNames(der.GetType()); fmt.Sprint(got) != fmt.Sprint(want) {
+		x.Fail("C18:first-wrapper:derived-fields", "%s of a second resource has fields %v, its source has %v (mutation %d of the first wrapper)", names[derive], got, want, mut)
+	}
+}
+
+// c18SoftNewFunc: a soft resource whose type came from BuildType (NewFunc set)
+// and was edited afterwards: New() and Copy() give a resource of the CURRENT type.
+func c18SoftNewFunc(x *mc.Exec) {
+	edit := x.Choose(3, "edit")
+	how := x.Choose(2, "derivation")
+	typ := c18T.StructBuiltType()
+	ct := typ.Copy()
+	sr := &j.SoftResource{Type: &ct}
+	sr.Set("id", "n1")
+	sr.Set("s", "v")
+	switch edit {
+	case 1:
+		sr.AddAttr(j.Attr{Name: "score", Type: j.AttrTypeInt})
+	case 2:
+		sr.RemoveField("s")
+	}
+	var der j.Resource
+	if p := Try(func() {
+		if how == 0 {
+			der = sr.New()
+		} else {
+			der = sr.Copy()
+		}
+	}); p != "" {
+		x.Fail("C18:soft-newfunc:panic", "derivation panicked: %s", p)
+		return
+	}
+	x.R.Add("transitions", 1)
+	x.R.Mark("nontrivial", mc.Hash(edit, how))
+	if got, want := FieldNames(der.GetType()), FieldNames(sr.GetType()); fmt.Sprint(got) != fmt.Sprint(want) || der.GetType().Name != sr.GetType().Name {
+		x.Fail("C18:soft-newfunc:type", "%s of a soft resource whose type has a NewFunc and was edited (edit %d) has fields %v, the source has %v", []string{"New()", "Copy()"}[how], edit, got, want)
+	}
+}
+
 func init() {
 	var hs []Harness
 	for _, soft := range []bool{true, false} {
@@ -348,7 +434,8 @@ func init() {
 			ReplayCustom: func(c *Ctx, ch []int) []mc.Violation { v, _ := c18TypeBFS(c, shape).ReplayHistory(ch); return v },
 		})
 	}
-	hs = append(hs, Harness{Name: "C18/initial", Body: c18Initial})
+	hs = append(hs, Harness{Name: "C18/initial", Body: c18Initial},
+		Harness{Name: "C18/first-wrapper", Body: c18FirstWrapper}, Harness{Name: "C18/soft-newfunc", Body: c18SoftNewFunc})
 	Register(&Prop{
 		ID: "C18",
 		Rule: "Engine B: for {soft, wrapped} x {Copy(), New()} (soft also for a type without relationships and a type without attributes) a source resource holding a byte string, a pointer to a byte string, nullable pointers, a time and an unsorted 3-element to-many list and a 1-element to-many list is derived, then ALL histories (depth <= 3 quick / 4 thorough) of 18 mutations applied to either side (Set of several fields and id, AddAttr/AddRel/RemoveField on its type, deleting from / adding to the maps returned by Attrs(), Rels() and GetType(), MarshalResource with relationship data (sorts in place), Filter '=' on the to-many (sorts in place), writing element 0 of the slices obtained from Get for []byte, []string and *[]byte) are explored with deep-snapshot de-duplication; after every mutation everything readable from the OTHER side must be unchanged. Same for Type.Copy under AddAttr/RemoveAttr/AddRel/RemoveRel. Engine A: the derived object right after derivation equals its source (Copy) / is zero-valued (New). Every state is a distinct pair of heaps",
